@@ -29,6 +29,15 @@
   `validate = true` is the unlabelled family (its `product2` validates through `Opinion::new`),
   `validate = false` the labelled one (its `product2` renormalises the base rate).
 
+  Remark ("impossible under every y").  What makes the marginal base rate of a joint value `k` zero is that
+  no product cell carries BELIEF MASS on `k` (`C11_impossible_iff`: `ax12 k = 0 ↔ mbr present ∧ ∀ y,
+  b12 y k = 0`), which is implied by, but weaker than, `P(x1|y) P(x2|y) = 0` for every `y`
+  (`C11_impossible_of_projections`).  In the property's own example (`exD`) the cell `(x0, z1)` has
+  `P(x0|y0) P(z1|y0) > 0` under the outer-product base rate, yet zero belief mass in every product
+  cell, hence zero marginal base rate, a zero column in the final inversion and the vacuous conditional.
+  The transposition theorems are proved on the stated domain (lifted well-formed inputs) through the
+  closed forms, for `n1 ≠ n2` as well (the bijection `tr : Fin (n2 * n1) ≃ Fin (n1 * n2)`).
+
   Borrowed vs owned tables (`MergeJointConditions2` is implemented once for references and the owned
   variants forward to it): both are the same model value `mergeCond2`; that the two Rust entry points
   agree is carried by the correspondence check of the harness, not by a theorem.
@@ -42,6 +51,7 @@
 import SLV.Refine.C11Lemmas
 import SLV.Props.C04
 import Mathlib.Data.Fin.VecNotation
+import Mathlib.Tactic.FinCases
 
 namespace SLV.Props.C11
 open SLV Scalar SLV.C11 SLV.Props.C09
@@ -449,5 +459,68 @@ theorem C11_example_swapped (f : Fmt) :
 /-- operands for `C11_deduce_order`: opinions on X and on Z -/
 example : WF (n := 2) ![1/4, 1/4] (1/2) ![9/16, 7/16] ∧ WF (n := 2) ![1/2, 1/8] (3/8) ![6/16, 10/16] := by
   constructor <;> constructor <;> norm_num [Fin.sum_univ_two, Fin.forall_fin_two]
+
+/-- a second instance, for `C11_impossible_of_projections`: `X1 -> Y` and `X2 -> Y` both the identity
+    (dogmatic), uniform base rates; the joint value `(x0, z1)` is impossible under every `y` -/
+def exE : MIn 2 2 2 :=
+  ⟨![![1, 0], ![0, 1]], ![0, 0], ![![1, 0], ![0, 1]], ![0, 0], ![1/2, 1/2], ![1/2, 1/2], ![1/2, 1/2]⟩
+
+theorem exE_hyp : MHyp exE := by
+  constructor <;> simp [exE, Fin.sum_univ_two, Fin.forall_fin_succ] <;> norm_num
+
+/-- kernel evaluation of stages 1–2 of the model: `P(z1|y0) = 0` and `P(x0|y1) = 0` … -/
+theorem exE_inverted_model (f : Fmt) :
+    (let i1 := inverse (condTab exE.c1b exE.c1u f) (liftT exE.ax1)
+        ((mbr (liftT exE.ax1) (condTab exE.c1b exE.c1u f)).getD (liftT exE.ay))
+     let i2 := inverse (condTab exE.c2b exE.c2u f) (liftT exE.ax2)
+        ((mbr (liftT exE.ax2) (condTab exE.c2b exE.c2u f)).getD (liftT exE.ay))
+     decide ((i2[(0 : Fin 2)]).b[(1 : Fin 2)] = XQ.fin 0 ∧ (i2[(0 : Fin 2)]).u = XQ.fin 0 ∧
+       (i1[(1 : Fin 2)]).b[(0 : Fin 2)] = XQ.fin 0 ∧ (i1[(1 : Fin 2)]).u = XQ.fin 0)) = true := by
+  cases f <;> decide +kernel
+
+/-- … and of stage 3: the product cell for `y0` is dogmatic -/
+theorem exE_cells_model (f : Fmt) :
+    (match sequenceE (SLV.C15.mCells true (condTab exE.c1b exE.c1u f) (condTab exE.c2b exE.c2u f)
+        (liftT exE.ax1) (liftT exE.ax2) (liftT exE.ay)) with
+      | .ok t => decide ((t[(0 : Fin 2)]).u = XQ.fin 0)
+      | .error _ => false) = true := by
+  cases f <;> decide +kernel
+
+/-- the hypotheses of `C11_impossible_of_projections` hold for the cell `(x0, z1)` of `exE` -/
+theorem exE_impossible (f : Fmt) :
+    ¬ ((∀ y, 1 - 2 * f.eps ≤ u12 f exE y) ∨ ∑ y, exE.ay y * (1 - u12 f exE y) = 0) ∧
+    ∀ y, (x1b f exE y 0 + exE.ax1 0 * x1u f exE y) * (x2b f exE y 1 + exE.ax2 1 * x2u f exE y) = 0 := by
+  have k1 := exE_inverted_model f
+  simp only [(stage_rows exE_hyp _).1, (stage_rows exE_hyp _).2, liftT_getElem,
+    decide_eq_true_eq, XQ.fin.injEq] at k1
+  obtain ⟨a1, a2, a3, a4⟩ := k1
+  have k2 := exE_cells_model f
+  rw [cells_lift exE_hyp true] at k2
+  simp only [condTab_get, decide_eq_true_eq, XQ.fin.injEq] at k2
+  constructor
+  · rintro (hv | hS)
+    · have := hv 0
+      rw [k2] at this
+      have := SLV.Props.C08.eps_small f
+      linarith
+    · have hle : u12 f exE 1 ≤ 1 :=
+        (SLV.Props.C06.C06_wf (wf1 (f := f) exE_hyp 1) (wf2 (f := f) exE_hyp 1)).2.2.2.1
+      have h0 : 0 ≤ exE.ay 1 * (1 - u12 f exE 1) :=
+        mul_nonneg (le_of_lt (exE_hyp.hay 1)) (by linarith)
+      rw [Fin.sum_univ_two, k2] at hS
+      have : exE.ay 0 = 1/2 := by simp [exE]
+      rw [this] at hS
+      linarith
+  · intro y
+    fin_cases y
+    · show _ * (x2b f exE 0 1 + exE.ax2 1 * x2u f exE 0) = 0
+      rw [a1, a2]; ring
+    · show (x1b f exE 1 0 + exE.ax1 0 * x1u f exE 1) * _ = 0
+      rw [a3, a4]; ring
+
+example (f : Fmt) : ∃ r, mergeCond2 false (condTab exE.c1b exE.c1u f) (condTab exE.c2b exE.c2u f)
+    (liftT exE.ax1) (liftT exE.ax2) (liftT exE.ay) = .ok r ∧
+    r[flat2 (0 : Fin 2) (1 : Fin 2)] = Simplex.vacuous :=
+  (C11_impossible_of_projections exE_hyp false 0 1 (exE_impossible f).1 (exE_impossible f).2).2
 
 end SLV.Props.C11
